@@ -11,7 +11,7 @@ def run(chk):
     s = chk.seed
     if quick:
         jobs = [("rec", s * 100 + i, 13, 110, 0) for i in range(8)] + [("rec", s * 100 + 50 + i, 13, 60, 1) for i in range(4)] + \
-               [("rec", s * 100 + 90, 13, 320, 0)]          # every subject once beyond 256 steps
+               [("rec", s * 100 + 90, 13, 1100, 0)]         # every subject once beyond 1024 steps (periodic housekeeping, counters)
     else:
         jobs = [("rec", s * 100 + i, 26, 400, 0) for i in range(24)] + [("rec", s * 100 + 50 + i, 26, 400, 1) for i in range(16)]
     numfam.record_validate(chk, yv, "c03", jobs)
